@@ -10,16 +10,98 @@ BUILTINS = {'len': 'native', 'abs': 'native', 'list': 'native', 'sum': 'native',
 LOCALS = ['x', 'y', 'z', 'i', 'j', 'q', 'w']
 FRESH = ['w', 't', 'y', 'r', 'v']
 UNKNOWN = ['nope', 'undefined_name']
-IMPORTS = [['import', 'math'], ['from', 'math', 'gcd', 'gcd'], ['import', 'c14_mod'],
-           ['from', 'c14_mod', 'K', 'K'], ['from', 'c14_mod', 'S', 's'], ['from', 'math', 'gcd', 'g'],
-           ['from', 'c14_mod', 'K', 'a'], ['from', 'c14_mod', 'K', 'len']]
-MOD_ATTRS = {'math': {'gcd': 'native'}, 'c14_mod': {'K': 'int', 'S': 'str'}}
+def import_forms(P):
+    """import statements the cases draw from: plain, dotted un-aliased, dotted aliased, from-forms that
+    name an attribute or a submodule — over a throw-away package P and a few stdlib packages"""
+    return [
+        ['import', 'math'], ['from', 'math', 'gcd', 'gcd'], ['import', 'c14_mod'],
+        ['from', 'c14_mod', 'K', 'K'], ['from', 'c14_mod', 'S', 's'], ['from', 'math', 'gcd', 'g'],
+        ['from', 'c14_mod', 'K', 'a'], ['from', 'c14_mod', 'K', 'len'],
+        ['import', P], ['import', f'{P}.sub.mod'], ['import', f'{P}.sub.mod'], ['import', f'{P}.sub.mod'],
+        ['import', f'{P}.sub'], ['import', f'{P}.other'],
+        ['importas', f'{P}.sub.mod', 'm'], ['importas', f'{P}.other', 'oth'], ['importas', f'{P}.sub', 'sb'],
+        ['from', f'{P}.sub', 'mod', 'mod'], ['from', f'{P}.sub', 'mod', 'leaf'], ['from', f'{P}.sub', 'SUBC', 'SUBC'],
+        ['from', f'{P}.sub.mod', 'CONST', 'Y'], ['from', P, 'sub', 'sub'], ['from', P, 'TOP', 'TOP'],
+        ['import', 'os.path'], ['importas', 'os.path', 'osp'], ['from', 'os', 'path', 'path'],
+        ['from', 'os.path', 'sep', 'sep'],
+        ['import', 'urllib.parse'], ['importas', 'urllib.parse', 'up'], ['from', 'urllib.parse', 'quote', 'quote'],
+        ['from', 'urllib', 'parse', 'parse'],
+        ['import', 'xml.dom.minidom'], ['importas', 'xml.dom.minidom', 'md'], ['from', 'xml.dom', 'minidom', 'minidom'],
+        ['from', 'xml.dom', 'XHTML_NAMESPACE', 'XN'],
+    ]
 
 
-def import_binding(s):
-    if s[0] == 'import':
-        return s[1], 'mod:' + s[1]
-    return s[3], MOD_ATTRS[s[1]][s[2]]
+ATTR_POOL = ['K', 'S', 'gcd', 'p', 'q', 'sub', 'mod', 'other', 'CONST', 'TOP', 'NAME', 'parse', 'dom',
+             'minidom', 'path', 'sep', 'quote']
+
+
+class ModSim:
+    """What the generator believes about modules (only steers towards valid programs; the expected
+    values come from the model and from plain Python, never from here)."""
+
+    def __init__(self, P):
+        import c14_lang as L
+        self.mods = {m: dict((a, v) for a, v in attrs) for m, attrs in L.case_mods({'pkg': P})}
+        self.loaded = {'os', 'os.path', 'posixpath'}
+
+    def vtype(self, v):
+        if isinstance(v, bool):
+            return 'bool'
+        if isinstance(v, int):
+            return 'int'
+        if isinstance(v, str):
+            return 'str'
+        if isinstance(v, dict) and 'mod' in v:
+            return 'mod:' + v['mod']
+        return 'native'
+
+    def value(self, m):
+        v = self.mods[m].get('<self>')
+        return v if v else {'mod': m}
+
+    def load(self, m):
+        parts = m.split('.')
+        for i in range(1, len(parts) + 1):
+            self.loaded.add('.'.join(parts[:i]))
+
+    def bind(self, s):
+        if s[0] == 'import':
+            self.load(s[1])
+            top = s[1].split('.')[0]
+            return top, self.vtype(self.value(top))
+        if s[0] == 'importas':
+            self.load(s[1])
+            return s[2], self.vtype(self.value(s[1]))
+        self.load(s[1])
+        attrs = self.mods[s[1]]
+        if s[2] in attrs:
+            return s[3], self.vtype(attrs[s[2]])
+        self.load(f'{s[1]}.{s[2]}')
+        return s[3], self.vtype(self.value(f'{s[1]}.{s[2]}'))
+
+    def chains(self, m, depth=3):
+        """attribute chains from module m to plain values: [([attrs], type)]"""
+        out = []
+        if m not in self.mods or depth == 0:
+            return out
+        for a, v in self.mods[m].items():
+            if a == '<self>':
+                continue
+            t = self.vtype(v)
+            if t.startswith('mod:'):
+                out += [([a] + c, tt) for c, tt in self.chains(t[4:], depth - 1)]
+            else:
+                out.append(([a], t))
+        for sub in self.mods:
+            if sub.startswith(m + '.') and '.' not in sub[len(m) + 1:] and sub in self.loaded:
+                a = sub[len(m) + 1:]
+                if a not in self.mods[m]:
+                    out += [([a] + c, tt) for c, tt in self.chains(sub, depth - 1)]
+        return out
+
+
+def import_binding(s, sim=None):
+    return (sim or ModSim('c14pkg_0')).bind(s)
 
 
 def gen_scalar(rng, t):
@@ -86,7 +168,8 @@ class Scope:
 
 
 class Gen:
-    def __init__(self, rng, genv, wild=0.06):
+    def __init__(self, rng, genv, wild=0.06, sim=None):
+        self.sim = sim or ModSim('c14pkg_0')
         self.rng = rng
         self.genv = genv          # global names -> type (context, imports, block bindings)
         self.wild = wild
@@ -119,6 +202,19 @@ class Gen:
                 return f()
         return opts[-1][1]()
 
+    def mod_reads(self, t, sc):
+        """expressions name.a.b.X of type t through the module objects bound to global names"""
+        out = []
+        for k, kt in self.genv.items():
+            if isinstance(kt, str) and kt.startswith('mod:') and k not in sc.locs:
+                for chain, ct in self.sim.chains(kt[4:]):
+                    if ct == t:
+                        e = ['name', k]
+                        for a in chain:
+                            e = ['attr', e, a]
+                        out.append(e)
+        return out
+
     # -- expressions
     def expr(self, t, d, sc):
         rng = self.rng
@@ -137,6 +233,9 @@ class Gen:
                 return ['bin', op, self.expr(tt, d - 1, sc), self.expr(tt, d - 1, sc)]
             return ['bool', rng.choice([True, False])]
         if t == 'str':
+            mr = self.mod_reads('str', sc)
+            if mr and rng.random() < 0.5:
+                return rng.choice(mr)
             ns = self.names('str', sc)
             if ns and rng.random() < 0.5:
                 return ['name', rng.choice(ns)]
@@ -205,6 +304,9 @@ class Gen:
         opts = [(2, lambda: ['int', gen_scalar(rng, 'int')])]
         if ns:
             opts.append((5, lambda: ['name', rng.choice(ns)]))
+        mr = self.mod_reads('int', sc)
+        if mr:
+            opts.append((6, lambda: rng.choice(mr)))
         if d > 0:
             opts.append((3, lambda: ['bin', 'add', self.int_expr(d - 1, sc), self.int_expr(d - 1, sc)]))
             if self.native('len', sc):
@@ -215,11 +317,10 @@ class Gen:
                 opts.append((0.7, lambda: ['call', ['name', 'abs'], [self.int_expr(d - 1, sc)]]))
             for g in [k for k in ('gcd', 'g') if self.typeof(k, sc) == 'native' and k in self.genv]:
                 opts.append((1.5, lambda g=g: ['call', ['name', g], [self.int_expr(d - 1, sc), self.int_expr(d - 1, sc)]]))
-            if self.typeof('math', sc) == 'mod:math':
-                opts.append((1.5, lambda: ['call', ['attr', ['name', 'math'], 'gcd'],
-                                           [self.int_expr(d - 1, sc), self.int_expr(d - 1, sc)]]))
-            if self.typeof('c14_mod', sc) == 'mod:c14_mod':
-                opts.append((1.5, lambda: ['attr', ['name', 'c14_mod'], 'K']))
+            for k, kt in list(self.genv.items()):
+                if kt == 'mod:math' and k not in sc.locs:
+                    opts.append((1.5, lambda k=k: ['call', ['attr', ['name', k], 'gcd'],
+                                                   [self.int_expr(d - 1, sc), self.int_expr(d - 1, sc)]]))
             for f, ft in self.genv.items():
                 if isinstance(ft, str) and ft.startswith('func:') and f not in sc.locs:
                     k = int(ft[5:])
@@ -249,6 +350,15 @@ class Gen:
                 opts.append((0.7, lambda: self.walrus('list', d, sc)))
         return self.pick(opts)
 
+    def wild_chain(self, sc):
+        """a dotted path through a module name that may or may not resolve (un-imported submodules)"""
+        rng = self.rng
+        ms = [k for k, kt in self.genv.items() if isinstance(kt, str) and kt.startswith('mod:')]
+        e = ['name', rng.choice(ms or list(self.genv) or ['a'])]
+        for _ in range(rng.choice([1, 2, 2, 3])):
+            e = ['attr', e, rng.choice(ATTR_POOL)]
+        return e
+
     def wild_expr(self, d, sc):
         rng = self.rng
         allnames = list(sc.locs) + list(self.genv) + list(BUILTINS)
@@ -257,7 +367,8 @@ class Gen:
             (3, lambda: ['name', rng.choice(allnames)]),
             (1, lambda: ['call', ['name', rng.choice([x for x in allnames if x != 'id' or x in self.genv])],
                          [self.expr('any', max(d - 1, 0), sc)]]),
-            (1, lambda: ['attr', ['name', rng.choice(allnames)], rng.choice(['K', 'S', 'gcd', 'p', 'q'])]),
+            (1, lambda: ['attr', ['name', rng.choice(allnames)], rng.choice(ATTR_POOL)]),
+            (1.5, lambda: self.wild_chain(sc)),
             (1, lambda: ['bin', rng.choice(['add', 'eq', 'lt']), self.expr('any', max(d - 1, 0), sc),
                          self.expr('any', max(d - 1, 0), sc)]),
             (0.6, lambda: ['comp', ['name', 'x'], [['x', self.expr('any', max(d - 1, 0), sc.child(in_iter=True))]]]),
@@ -320,22 +431,57 @@ def seeds():
         ['save', [], [['d', ['attr', N('C'), 'd']], ['v', ['attr', N('C'), 'v']]]]])
     ex([['def', 'f', ['x'], ['walrus', 'a', N('x')]], ['assign', 'r', ['call', N('f'), [['int', 5]]]], ['save', ['r', 'a'], []]])
     ex([['save', ['a'], [['a', ['int', 5]], ['zz', ['int', 1]]]]])
+    # dotted imports over a throw-away package: the path resolves through the top-level name
+    P = 'c14pkg_seed01'
+
+    def path(*attrs):
+        e = N(P)
+        for a in attrs:
+            e = ['attr', e, a]
+        return e
+    const = path('sub', 'mod', 'CONST')
+    ev([['bin', 'add', const, N('a')], ['lam', ['k'], ['bin', 'add', const, N('k')], [['int', 2]]],
+        ['comp', ['bin', 'add', const, N('x')], [['x', N('lst')]]], path('other', 'NAME')],
+       imports=[['import', f'{P}.sub.mod']], pkg=P)
+    ev([['attr', N('m'), 'CONST'], ['attr', N('leaf'), 'WORD'], N('Y'), path('sub', 'SUBC'), ['attr', N('oth'), 'NAME']],
+       imports=[['importas', f'{P}.sub.mod', 'm'], ['from', f'{P}.sub', 'mod', 'leaf'],
+                ['from', f'{P}.sub.mod', 'CONST', 'Y'], ['import', P], ['importas', f'{P}.other', 'oth']], pkg=P)
+    ev([path('sub', 'mod', 'CONST')], imports=[['import', P]], pkg=P)
+    ev([['attr', ['attr', N('os'), 'path'], 'sep'], ['attr', ['attr', N('urllib'), 'parse'], 'quote'],
+        ['attr', ['attr', ['attr', N('xml'), 'dom'], 'minidom'], 'parseString'], ['attr', N('osp'), 'sep']],
+       imports=[['import', 'os.path'], ['import', 'urllib.parse'], ['import', 'xml.dom.minidom'], ['importas', 'os.path', 'osp']])
+    ex([['import', f'{P}.sub.mod'], ['def', 'f', ['k'], ['bin', 'add', const, N('k')]],
+        ['save', [], [['r', ['call', N('f'), [['int', 2]]]], ['w', path('sub', 'mod', 'WORD')]]]], pkg=P)
+    ex([['from', f'{P}.sub', 'mod', 'leaf'], ['importas', f'{P}.other', 'oth'],
+        ['save', [], [['r', ['attr', N('leaf'), 'CONST']], ['n', ['attr', N('oth'), 'NAME']]]],
+        ['assign', 'x', N(P)]], pkg=P)
     return out
 
 
 # ---------------------------------------------------------------- cases
 
+def new_pkg(rng):
+    return f'c14pkg_{rng.randrange(10 ** 6):06d}'
+
+
+def mentions_pkg(stmts, P):
+    return any(isinstance(x, str) and (x == P or x.startswith(P + '.')) for s in stmts for x in s[1:])
+
+
 def gen_eval_case(rng):
     heap, ctx, types = gen_context(rng)
+    P = new_pkg(rng)
+    sim = ModSim(P)
     imports = []
-    if rng.random() < 0.45:
-        imports = rng.sample(IMPORTS, rng.choice([1, 1, 2, 3]))
+    if rng.random() < 0.55:
+        forms = import_forms(P)
+        imports = [list(rng.choice(forms[8:] if rng.random() < 0.75 else forms)) for _ in range(rng.choice([1, 1, 2, 3]))]
     genv = {}
     for s in imports:
-        k, t = import_binding(s)
+        k, t = sim.bind(s)
         genv[k] = t
     genv.update(types)           # context first in the chain: it shadows imports
-    g = Gen(rng, genv)
+    g = Gen(rng, genv, sim=sim)
     exprs = []
     n = rng.choice([1, 1, 2, 2, 3])
     for i in range(n):
@@ -352,7 +498,10 @@ def gen_eval_case(rng):
                 exprs.append(['comp', ['name', x], [['i', ['list', [['int', 0]]]]]])
         else:
             exprs.append(g.expr('any', rng.choice([1, 2, 3, 3, 4, 4]), Scope()))
-    return {'kind': 'eval', 'heap': heap, 'ctx': ctx, 'imports': imports, 'exprs': exprs}
+    case = {'kind': 'eval', 'heap': heap, 'ctx': ctx, 'imports': imports, 'exprs': exprs}
+    if mentions_pkg(imports, P):
+        case['pkg'] = P
+    return case
 
 
 def _walk(e):
@@ -363,7 +512,9 @@ def _walk(e):
 def gen_exec_case(rng):
     heap, ctx, types = gen_context(rng)
     genv = dict(types)
-    g = Gen(rng, genv)
+    P = new_pkg(rng)
+    sim = ModSim(P)
+    g = Gen(rng, genv, sim=sim)
     block = []
     n = rng.choice([1, 2, 3, 3, 4, 5, 6])
     bound = []
@@ -386,9 +537,10 @@ def gen_exec_case(rng):
                 block.append(['aug', x, g.expr(t, max(d - 1, 0), sc)])
                 bound.append(x)
         elif r < 0.48:
-            s = rng.choice(IMPORTS[:6])
+            forms = import_forms(P)
+            s = list(rng.choice(forms[:6] if rng.random() < 0.35 else forms[8:]))
             block.append(list(s))
-            k, t = import_binding(s)
+            k, t = sim.bind(s)
             genv[k] = t
             bound.append(k)
         elif r < 0.58:
@@ -433,4 +585,7 @@ def gen_exec_case(rng):
                 genv.pop(x, None)
     if not block:
         block.append(['assign', 'x', ['int', 1]])
-    return {'kind': 'exec', 'heap': heap, 'ctx': ctx, 'block': block}
+    case = {'kind': 'exec', 'heap': heap, 'ctx': ctx, 'block': block}
+    if mentions_pkg([s for s in block if s[0] in ('import', 'importas', 'from')], P):
+        case['pkg'] = P
+    return case
